@@ -202,6 +202,8 @@ class PB(ExprBuilder):
             return args[0]            # truth value of its argument
         if d in ("abs", "float", "int", "bool", "min", "max", "sum", "round", "range", "list", "tuple", "sorted", "str", "isinstance", "zip", "enumerate", "dict", "set"):
             if d in ("float", "int") and len(args) == 1:
+                if getattr(self, "keep_casts", False):
+                    return ('call', 'py.' + d, (args[0],))
                 return args[0]
             return ('call', d if d in ("abs",) else "py." + d, tuple(args), *( (_kws(e, self, env),) if e.keywords else ()))
         if d and d.split(".")[0] in ("np", "numpy") and d.count(".") == 1:
